@@ -604,6 +604,8 @@ func c20Pass(c *mon.Ctx) {
 	for name, n := range rawRec {
 		if _, ok := recordNorms[name]; !ok {
 			bad("yaml-loader-dropped-record-type", "record type %s (listed %d times) is in the file but not in the loaded table", name, n)
+		} else if got := len(recordNorms[name]); got != n {
+			bad("yaml-loader-dropped-normalisation", "record type %s is listed by %d normalisations in the file, the loaded table has %d for it", name, n, got)
 		}
 	}
 	c.Add("yaml_syscall_names", int64(len(syscallNorms)))
